@@ -269,11 +269,13 @@ function compare(a, b, opts) {
     return true;
   };
   const eqArr = (x, y) => x.length === y.length && x.every((v, i) => tolEq(v, y[i]));
-  if (!eqArr(sa.pre, sb.pre)) diffs.push({ seg: '', a: sa.pre.slice(0, 60), b: sb.pre.slice(0, 60) });
+  // a reported difference shows a window of events that starts shortly before the first differing position
+  const win = (x, y) => { let i = 0; while (i < x.length && i < y.length && tolEq(x[i], y[i])) i++; const lo = Math.max(0, i - 8); return [x.slice(lo, lo + 60), y.slice(lo, lo + 60), lo]; };
+  if (!eqArr(sa.pre, sb.pre)) { const [wa, wb, lo] = win(sa.pre, sb.pre); diffs.push({ seg: '', a: wa, b: wb, at: lo }); }
   for (const [id, ea] of sa.segs) {
     const eb = sb.segs.get(id);
     if (!eb) { diffs.push({ seg: id, a: ea.slice(0, 60), b: null }); continue; }
-    if (!eqArr(ea, eb)) diffs.push({ seg: id, a: ea.slice(0, 60), b: eb.slice(0, 60) });
+    if (!eqArr(ea, eb)) { const [wa, wb, lo] = win(ea, eb); diffs.push({ seg: id, a: wa, b: wb, at: lo }); }
     if (diffs.length > 50) break;
   }
   for (const id of sb.segs.keys()) if (!sa.segs.has(id)) { diffs.push({ seg: id, a: null, b: sb.segs.get(id).slice(0, 60) }); if (diffs.length > 50) break; }
